@@ -318,6 +318,29 @@ def run(chk):
                     for t in (n.targets if isinstance(n, (ast.Assign, ast.Delete)) else [n.target]):
                         if isinstance(t, ast.Subscript) and isinstance(t.value, ast.Attribute):
                             attr_mut.append((mod, q, fn, n, t.value))
+    # caches created by a call instead of a decorator: `name = functools.lru_cache(...)(fn)` / `name = functools.cache(fn)` (module or
+    # class level); the wrapped function is then memoised under the new name
+    all_funcs = {}
+    for rel, tree in iter_sources(chk):
+        mod_ = ("dep_logic." + rel[:-3].replace("/", ".")).replace(".__init__", "")
+        for q_, fn_ in functions(tree):
+            all_funcs.setdefault(q_.split(".")[-1], []).append((mod_, q_, fn_))
+    for rel, tree in iter_sources(chk):
+        mod_ = ("dep_logic." + rel[:-3].replace("/", ".")).replace(".__init__", "")
+        for node in ast.walk(tree):
+            if isinstance(node, (ast.Assign, ast.AnnAssign)) and isinstance(node.value, ast.Call):
+                call = node.value
+                inner = call.func
+                kind = deco_kind(inner) if not isinstance(inner, ast.Call) else deco_kind(inner.func)
+                if kind in ("lru_cache", "cache") and len(call.args) == 1 and isinstance(call.args[0], (ast.Name, ast.Attribute)):
+                    fname = call.args[0].id if isinstance(call.args[0], ast.Name) else call.args[0].attr
+                    tname = ast.unparse(node.targets[0] if isinstance(node, ast.Assign) else node.target)
+                    cands = all_funcs.get(fname, [])
+                    same = [c for c in cands if c[0] == mod_] or cands
+                    if len(same) == 1:
+                        inventory.append((mod_, f"{tname}={same[0][1]}", same[0][2], kind))
+                    else:
+                        chk.notes.append(f"R10.1: `{norm(ast.unparse(node))[:80]}` in {mod_} memoises `{fname}`, whose definition is not uniquely resolved; not inspected")
     attr_reads = []
     for rel, tree in iter_sources(chk):
         mod_ = ("dep_logic." + rel[:-3].replace("/", ".")).replace(".__init__", "")
